@@ -2009,8 +2009,11 @@ pub fn c02(c: &Collector, g: &mut Guard) {
         c.crash(format!("C02 byte worker {} ended abnormally ({}), partition {:?}", cr.child, cr.how, cr.last_part));
     }
     // (3b) long inputs: single feed vs fixed-size chunkings, on an 80x24 screen
-    let longs = long_streams();
-    let longb = long_byte_streams();
+    // the two longest members (200000 / 300000) only in the thorough tier here: C02 feeds every
+    // stream under a dozen chunk sizes (C03, C11 and C19 take them in both tiers)
+    let big = |n: &str| n.ends_with("300000") || n.ends_with("200000");
+    let longs: Vec<(String, String)> = long_streams().into_iter().filter(|(n, _)| c.thorough() || !big(n)).collect();
+    let longb: Vec<(String, Vec<u8>)> = long_byte_streams().into_iter().filter(|(n, _)| c.thorough() || !big(n)).collect();
     let crashes = fork_map(c, 16, Duration::from_secs(crate::explore::sweep_timeout_s()), |part, cc| {
         let mut n = 0u64;
         let mut outcomes = HashSet::new();
